@@ -211,8 +211,12 @@ def r04_5(ctx):
             if n.get("k") == "Struct" and (n.get("adt") or "") in ("directive::NormalDirective", "directive::VModelDirective"):
                 k_ += 1
                 mv = expr_str({f["name"]: f["e"] for f in n["fields"]}.get("modifiers", {}))
-                r.ob("%s: %s #%d takes its modifiers from the parsed ones" % (b["name"], n["adt"].split("::")[-1], k_), mv != "None", C.mloc(b, n),
-                     mv[:60] if mv != "None" else "`modifiers: None` on this path: `_suffix` modifiers of the attribute name are dropped")
+                # ... and from nothing else: the set that decides the `void 0` argument placeholder is the set that is emitted
+                grown = re.search(r"\.(extend|insert|append|union|chain|extend_from_slice)\(", mv)
+                r.ob("%s: %s #%d takes its modifiers from the parsed ones" % (b["name"], n["adt"].split("::")[-1], k_), mv != "None" and not grown, C.mloc(b, n),
+                     mv[:60] if mv != "None" and not grown else
+                     ("`modifiers: None` on this path: `_suffix` modifiers of the attribute name are dropped" if mv == "None" else
+                      "modifiers are added (`.%s(..)`) while the directive is built, after the test that decides the `void 0` argument placeholder read the set" % grown.group(1)))
     mb = C.role(ctx, "modifiers_builder")
     if mb:
         t = expr_str(mb["body"])
